@@ -92,7 +92,7 @@ public:
   bool capHit;
   double kmax = 1e3; // upper end of the condition numbers drawn for this objective
   double smax = 1.5; // upper end of the scale factors of the exp family
-  bool plain = false; // minimiser within [-1,1]^n and minimum value 1 (relative and absolute tolerances coincide): the convergence bound is then 1000 sqrt(tol) in absolute terms
+  bool plain = false; // minimiser within [-1,1]^n and minimum value +1 or -1 (relative and absolute tolerances coincide): the convergence bound is then 1000 sqrt(tol) in absolute terms
   bool forceSmall = false; // quadratic with eigenvalues well below 1 and a random rotation (strongly correlated parameters)
 
   HFn(size_t n_) : AbstractParametrizable(""), n(n_), kind(0), A(), w(), m(), c(0), mu(0), kappa(1), lmin(1), d1(true), d2(true), record(false), sink(nullptr), evals(0), cap(1000000), capHit(false)
@@ -470,7 +470,7 @@ static void makeObjective(Rng& g, HFn& f, int kind)
   f.kind = kind;
   f.m.resize(n);
   for (size_t i = 0; i < n; ++i) f.m[i] = (g.unit() * 2. - 1.) * (f.plain ? 1. : logUniform(g, 0.1, 10.));
-  f.c = f.plain ? 1. : g.chance(1, 3) ? 0. : (g.unit() * 2. - 1.) * logUniform(g, 0.01, 100.);
+  f.c = f.plain ? (g.coin() ? 1. : -1.) : g.chance(1, 3) ? 0. : (g.unit() * 2. - 1.) * logUniform(g, 0.01, 100.);
   if (kind == 0 || kind == 2)
   {
     // eigenvalues in [1, kappa], kappa log-uniform in [1, 1e3]; rotation random (or axis-aligned)
@@ -581,7 +581,7 @@ public:
   {
     bool oneD = (opt == "Brent" || opt == "GoldenSection" || opt == "Newton1D");
     size_t n = oneD ? 1 : 1 + g.below(6);
-    if (series == 2) n = 5 + g.below(2);
+    if (series == 2) n = g.chance(1, 4) ? 5 : 6;
     if (series == 3) n = 2 + g.below(5);
     // objective family: quadratic half of the time; the Newton-type optimisers see the families whose
     // curvature degenerates far from the minimiser more often (their step-halving give-up paths)
@@ -595,13 +595,17 @@ public:
     }
     auto f = std::make_shared<HFn>(n);
     if (series == 2 || series == 3) kind = 0;
-    if (series == 2) f->plain = true;
+    if (series == 2)
+    {
+      f->plain = true;
+      f->kmax = 49.; // well-conditioned
+    }
     if (series == 3) f->forceSmall = true;
     makeObjective(g, *f, kind);
     Scenario sc;
     // start
     vector<double> start(n);
-    for (size_t i = 0; i < n; ++i) start[i] = f->m[i] + (g.coin() ? 1. : -1.) * logUniform(g, series == 2 ? 3. : 0.01, 10.); // series 2: far starts
+    for (size_t i = 0; i < n; ++i) start[i] = f->m[i] + (g.coin() ? 1. : -1.) * logUniform(g, series == 2 ? 5. : 0.01, 10.); // series 2: far starts
     // box: interval constraints containing start and minimiser
     Box& bx = sc.box;
     bx.has.assign(n, 0);
@@ -958,7 +962,7 @@ public:
         }
         double gq = gap / (tol * fs * f->kappa);
         if (getenv("VERIF_DEBUG")) fprintf(stderr, "sc=%ld finish d=%g tol=%g c=%g lmin=%g kappa=%g ms=%g q=%g gap=%g nb=%u\n", id, d, tol, f->c, f->lmin, f->kappa, ms, q, gap, o->getNumberOfEvaluations());
-        long gi = (gq != gq || gq > 1e6) ? 1000000000L : static_cast<long>(std::ceil(gq * 1000.));
+        long gi = (gq != gq || gq > 2e6) ? 2000000000L : static_cast<long>(std::ceil(gq * 1000.));
         long qi = (q != q || q > 1e6) ? 1000000000L : static_cast<long>(std::ceil(q * 1000.));
         bool cv = (kind == 0) && inactive && tolr && opt != "NewtonBacktrack" && static_cast<long>(o->getNumberOfEvaluations()) < maxEval; // statistics only
         e.r("ret", ret).r("fv", fv).r("re", re).iv("feas", bx.codes(x));
@@ -1224,9 +1228,9 @@ int main(int argc, char** argv)
   // extra series for the cheap one-dimensional optimisers: the objective sits at its minimiser / anywhere when
   // init(start) is called (as after an earlier run), budgets of 1..5 evaluations in 40 % of the runs
   // extra series 2: the simplex method in dimension 5-6 on well-conditioned quadratics at tolerances 1e-9 / 1e-10
-  // (minimiser in [-1,1]^n, minimum value 1); extra series 3: BFGS / conjugate gradient / Powell objects used twice on a
+  // (minimiser in [-1,1]^n, minimum value +1 or -1); extra series 3: BFGS / conjugate gradient / Powell objects used twice on a
   // strongly correlated quadratic with eigenvalues below 1 (converged run, then init() at a far start)
-  long n2 = only.empty() ? n / 16 : 0, n3 = only.empty() ? n / 8 : 0;
+  long n2 = only.empty() ? n / 4 : 0, n3 = only.empty() ? n / 8 : 0;
   static const char* REUSE[] = {"Bfgs", "ConjugateGradient", "Bfgs", "Powell"};
   for (long id = 2 * n + nbr; id < 2 * n + nbr + n2 + n3; ++id)
   {
